@@ -6,8 +6,20 @@ the chain file afterwards lists all earlier entries unchanged and in order follo
 reloading yields generations 1..n ascending.
 
 About `MhlModel.parseGenChars` / `genFileNameChars` (history.py `_new_generation_filename`, the file-name regex of
-`load_from_path`), `latestGenerationNumber`, `loadGens`, `writeOne`, `HistStore.add`, `Node.updateAt`,
-`applyWritten`.
+`load_from_path`), `latestGenerationNumber`, `HistStore.lists`, `loadGens`, `writeOne`, `HistStore.add`,
+`Node.updateAt`, `applyWritten`.
+
+After the repair of `load_from_path` (manifests the chain file does not list are ignored) and of the model
+(`loadGens` drops them; `HistStore.add` overwrites a stored manifest of the same name):
+  5. `mem_loadGens_iff`, `loadGens_listed_only`, `dropUnlisted`, `checkStore_dropUnlisted`, `loadHistory_dropUnlisted`:
+     what is loaded is listed, and loading does not depend on what is not listed;
+  6. `new_name_fresh` (fresh among the LOADED manifests), `new_name_fresh_listed` (on disk: fresh among the listed
+     manifests, and not listed itself);
+  7. `Listed` (names pairwise different, all manifests listed — the shape the tool leaves), `listed_add`;
+     `add_appends` / `add_preserves` for a fresh name, `add_gens` / `add_chain_preserves` / `add_keeps_others` in general;
+  8. `loadGens_add` (+ `_lt`, `_unlisted`), `reload_contiguous`, `writeOne_reload_contiguous`;
+  9. `interrupted_generation_absent`, `interrupted_create_absent`: a `create` killed between its two replaces.
+For a `Listed` store `dropUnlisted` is the identity and a fresh name makes `add` the plain append of before.
 -/
 import MhlProps.Proofs.NameLemmas
 
@@ -203,8 +215,151 @@ theorem latest_of_contiguous (gens : List LGen) (n : Nat) (h : gens.map (·.numb
   | zero => rfl
   | succ n => rw [List.range'_1_concat]; simp; omega
 
-/-! ### 5. the new name is fresh -/
+/-! ### 5. what the chain lists, and what is loaded -/
 
+theorem lists_iff (s : HistStore) (nm : String) : s.lists nm = true ↔ ∃ e ∈ s.chain, e.fileName = nm := by
+  simp [HistStore.lists]
+
+theorem lists_eq_false_iff (s : HistStore) (nm : String) : s.lists nm = false ↔ ∀ e ∈ s.chain, e.fileName ≠ nm := by
+  rw [← Bool.not_eq_true, lists_iff]
+  constructor
+  · intro h e he hn; exact h ⟨e, he, hn⟩
+  · rintro h ⟨e, he, hn⟩; exact h e he hn
+
+/-- exactly which stored manifests are loaded, and under which number: present, listed in the chain, and named
+like a generation -/
+theorem mem_loadGens_iff (s : HistStore) (lg : LGen) :
+    lg ∈ loadGens s ↔ lg.gen ∈ s.gens ∧ lg.gen.state ≠ .missing ∧ s.lists lg.gen.fileName = true ∧
+      parseGenName lg.gen.fileName = some lg.number := by
+  unfold loadGens
+  rw [mem_isort_n, List.mem_filterMap]
+  constructor
+  · rintro ⟨g, hg, hx⟩
+    by_cases hc : (g.state == .missing || !s.lists g.fileName) = true
+    · rw [if_pos hc] at hx; cases hx
+    · rw [if_neg hc] at hx
+      cases hp : parseGenName g.fileName with
+      | none => rw [hp] at hx; cases hx
+      | some k =>
+        rw [hp] at hx
+        simp only [Option.map_some, Option.some.injEq] at hx
+        subst hx
+        simp only [Bool.or_eq_true, beq_iff_eq, Bool.not_eq_true', not_or, Bool.not_eq_false] at hc
+        exact ⟨hg, hc.1, hc.2, hp⟩
+  · rintro ⟨hg, hst, hl, hp⟩
+    refine ⟨lg.gen, hg, ?_⟩
+    have hc : ¬ (lg.gen.state == .missing || !s.lists lg.gen.fileName) = true := by
+      simp [hst, hl]
+    rw [if_neg hc, hp]
+    rfl
+
+/-- the store with every manifest removed that the chain does not list -/
+def dropUnlisted (s : HistStore) : HistStore := { s with gens := s.gens.filter fun g => s.lists g.fileName }
+
+theorem dropUnlisted_lists (s : HistStore) (nm : String) : (dropUnlisted s).lists nm = s.lists nm := rfl
+
+/-- `filterMap` does not see elements it maps to `none` -/
+theorem filterMap_filter_of_none {α β : Type} (f : α → Option β) (p : α → Bool) (l : List α)
+    (h : ∀ a ∈ l, p a = false → f a = none) : (l.filter p).filterMap f = l.filterMap f := by
+  induction l with
+  | nil => rfl
+  | cons a l ih =>
+    have ih' := ih (fun x hx => h x (by simp [hx]))
+    cases hp : p a with
+    | true => rw [List.filter_cons_of_pos (by simpa using hp), List.filterMap_cons, List.filterMap_cons, ih']
+    | false =>
+      rw [List.filter_cons_of_neg (by simp [hp]), List.filterMap_cons, h a (by simp) hp, ih']
+
+theorem filterMap_congr_mem {α β : Type} (f g : α → Option β) (l : List α) (h : ∀ a ∈ l, f a = g a) :
+    l.filterMap f = l.filterMap g := by
+  induction l with
+  | nil => rfl
+  | cons a l ih =>
+    rw [List.filterMap_cons, List.filterMap_cons, h a (by simp), ih (fun x hx => h x (by simp [hx]))]
+
+theorem find?_congr_mem {α : Type} (p q : α → Bool) (l : List α) (h : ∀ a ∈ l, p a = q a) :
+    l.find? p = l.find? q := by
+  induction l with
+  | nil => rfl
+  | cons a l ih =>
+    rw [List.find?_cons, List.find?_cons, h a (by simp), ih (fun x hx => h x (by simp [hx]))]
+
+/-- THE REPAIRED BEHAVIOUR.  Every loaded generation is listed in the chain file, and what is loaded does not depend
+on the manifests the chain does not list: the store loads exactly like the store without them. -/
+theorem loadGens_listed_only (s : HistStore) :
+    (∀ g ∈ loadGens s, s.lists g.gen.fileName = true) ∧
+    (∀ g ∈ loadGens s, ∃ e ∈ s.chain, e.fileName = g.gen.fileName) ∧
+    loadGens s = loadGens (dropUnlisted s) := by
+  refine ⟨fun g hg => ((mem_loadGens_iff s g).1 hg).2.2.1,
+    fun g hg => (lists_iff s _).1 ((mem_loadGens_iff s g).1 hg).2.2.1, ?_⟩
+  show isort _ (List.filterMap (fun g : Generation =>
+      if g.state == .missing || !s.lists g.fileName then none
+      else (parseGenName g.fileName).map fun n => (⟨n, g⟩ : LGen)) s.gens) =
+    isort _ (List.filterMap (fun g : Generation =>
+      if g.state == .missing || !s.lists g.fileName then none
+      else (parseGenName g.fileName).map fun n => (⟨n, g⟩ : LGen)) (s.gens.filter fun g => s.lists g.fileName))
+  rw [filterMap_filter_of_none]
+  intro g _ hl
+  simp [hl]
+
+/-- a manifest the chain does not list is not loaded, whatever its state and content -/
+theorem unlisted_not_in_loadGens (s : HistStore) (g : Generation) (h : s.lists g.fileName = false) (n : Nat) :
+    (⟨n, g⟩ : LGen) ∉ loadGens s := by
+  intro hm
+  have := ((mem_loadGens_iff s ⟨n, g⟩).1 hm).2.2.1
+  rw [h] at this; cases this
+
+/-- the chain check follows the chain entries only: it does not see the manifests the chain does not list -/
+theorem find?_filter_listed (s : HistStore) (e : ChainEntry) (he : e ∈ s.chain) :
+    (s.gens.filter fun g => s.lists g.fileName).find? (fun g => g.fileName == e.fileName)
+      = s.gens.find? (fun g => g.fileName == e.fileName) := by
+  rw [List.find?_filter]
+  apply find?_congr_mem
+  intro g _
+  by_cases hn : g.fileName = e.fileName
+  · have : s.lists e.fileName = true := (lists_iff s _).2 ⟨e, he, rfl⟩
+    simp [this, hn]
+  · simp [hn]
+
+theorem foldlM_congr_mem {α β ε : Type} (f g : β → α → Except ε β) (l : List α) (b : β)
+    (h : ∀ a ∈ l, ∀ b, f b a = g b a) : l.foldlM f b = l.foldlM g b := by
+  induction l generalizing b with
+  | nil => rfl
+  | cons a l ih =>
+    rw [List.foldlM_cons, List.foldlM_cons, h a (by simp) b]
+    congr 1
+    funext b'
+    exact ih b' (fun x hx => h x (by simp [hx]))
+
+/-- two stores with the same chain whose chain entries resolve to the same manifests pass or fail the chain check
+alike -/
+theorem checkChain_congr (s s' : HistStore) (hc : s'.chain = s.chain)
+    (h : ∀ e ∈ s.chain, s'.gens.find? (fun g => g.fileName == e.fileName)
+      = s.gens.find? (fun g => g.fileName == e.fileName)) : checkChain s' = checkChain s := by
+  unfold checkChain
+  rw [hc]
+  apply foldlM_congr_mem
+  intro e he _
+  rw [h e he]
+
+theorem checkStore_dropUnlisted (s : HistStore) : checkStore (some (dropUnlisted s)) = checkStore (some s) := by
+  show (if !s.chainPresent then throw errNoChain else checkChain (dropUnlisted s)) =
+    (if !s.chainPresent then throw errNoChain else checkChain s)
+  rw [checkChain_congr s (dropUnlisted s) rfl (fun e he => find?_filter_listed s e he)]
+
+/-- the loaded history of a folder is the same with and without the manifests the chain does not list -/
+theorem loadHistory_dropUnlisted (nm : String) (cs : List Node) (s : HistStore) :
+    loadHistory (.dir nm cs (some (dropUnlisted s))) = loadHistory (.dir nm cs (some s)) := by
+  unfold loadHistory
+  simp only [Node.hist, checkStore_dropUnlisted, buildHist, ← (loadGens_listed_only s).2.2]
+  rfl
+
+/-! ### 6. the new name is fresh -/
+
+/-- the name of the new manifest parses to its number, which is above every loaded number, so it is the name of
+no LOADED manifest.  (Loaded manifests are listed in the chain, `loadGens_listed_only`: a manifest file the chain
+does not list — what a `create` leaves that was killed between its two replaces — may well carry the same name, see
+`new_name_fresh_listed` and `exLeftover`.) -/
 theorem new_name_fresh (rootHist : Hist) (s : Session) (folderName stamp process : String) (h : Hist)
     (refs : List Written) (w : Written)
     (hw : writeOne rootHist s folderName stamp process none h refs = .ok w)
@@ -222,20 +377,168 @@ theorem new_name_fresh (rootHist : Hist) (s : Session) (folderName stamp process
   have := Option.some.inj hparse
   omega
 
-/-! ### 6. append-only -/
+/-- a name that parses to a number above every loaded number is the name of no stored manifest that is present and
+listed in the chain; and if the chain check passes, the chain does not list it at all -/
+theorem fresh_of_parse_above (s : HistStore) (nm : String) (k : Nat) (hparse : parseGenName nm = some k)
+    (hlt : ∀ g ∈ loadGens s, g.number < k) :
+    (∀ g ∈ s.gens, s.lists g.fileName = true → g.state ≠ .missing → g.fileName ≠ nm) ∧
+    (checkChain s = .ok () → s.lists nm = false) := by
+  have h1 : ∀ g ∈ s.gens, s.lists g.fileName = true → g.state ≠ .missing → g.fileName ≠ nm := by
+    intro g hg hl hst hn
+    have hm : (⟨k, g⟩ : LGen) ∈ loadGens s := (mem_loadGens_iff s ⟨k, g⟩).2 ⟨hg, hst, hl, by rw [hn]; exact hparse⟩
+    exact Nat.lt_irrefl _ (hlt _ hm)
+  refine ⟨h1, ?_⟩
+  intro hchk
+  rw [lists_eq_false_iff]
+  intro e he hn
+  -- the entry resolves to a present manifest of that name
+  have hres : ∃ g, s.gens.find? (fun g => g.fileName == e.fileName) = some g ∧ g.state ≠ .missing := by
+    have key : ∀ (l : List ChainEntry), (l.foldlM (fun (_ : Unit) e =>
+        match s.gens.find? (fun g => g.fileName == e.fileName) with
+        | some g =>
+          match g.state with
+          | .ok => (pure () : Except Err Unit)
+          | .modified => throw errModified
+          | .missing => throw errMissingManifest
+        | none => throw errMissingManifest) ()) = .ok () → ∀ e ∈ l,
+          ∃ g, s.gens.find? (fun g => g.fileName == e.fileName) = some g ∧ g.state ≠ .missing := by
+      intro l
+      induction l with
+      | nil => intro _ e he; cases he
+      | cons x l ih =>
+        intro hok e he
+        rw [List.foldlM_cons] at hok
+        cases hf : s.gens.find? (fun g => g.fileName == x.fileName) with
+        | none => simp [hf, bind, Except.bind, throw, throwThe, MonadExceptOf.throw] at hok
+        | some g =>
+          cases hst : g.state with
+          | ok =>
+            simp only [hf, hst, bind, Except.bind, pure, Except.pure] at hok
+            rcases List.mem_cons.1 he with rfl | he
+            · exact ⟨g, hf, by rw [hst]; intro h; cases h⟩
+            · exact ih hok e he
+          | modified => simp [hf, hst, bind, Except.bind, throw, throwThe, MonadExceptOf.throw] at hok
+          | missing => simp [hf, hst, bind, Except.bind, throw, throwThe, MonadExceptOf.throw] at hok
+    exact key s.chain hchk e he
+  obtain ⟨g, hf, hst⟩ := hres
+  have hgn : g.fileName = e.fileName := by simpa using List.find?_some hf
+  exact h1 g (List.mem_of_find?_eq_some hf) ((lists_iff s _).2 ⟨e, he, hgn.symm⟩) hst (hgn.trans hn)
 
-theorem add_appends (s : HistStore) (w : Written) :
+/-- WHAT `new_name_fresh` MEANS FOR THE FOLDER ON DISK, after the repair: the name of the new manifest is fresh among
+the LISTED manifests — it is the name of no stored manifest that is present and listed in the chain, and (when the
+chain check passes, as it has when the history was loaded) the chain does not list it.  It may be the name of a stale
+manifest file the chain does not list; `HistStore.add` overwrites that one. -/
+theorem new_name_fresh_listed (rootHist : Hist) (sess : Session) (folderName stamp process : String) (h : Hist)
+    (refs : List Written) (w : Written) (s : HistStore) (hload : h.gens = loadGens s)
+    (hw : writeOne rootHist sess folderName stamp process none h refs = .ok w)
+    (hfolder : '\n' ∉ ((h.root.getLast?).getD folderName).toList) (hstamp : '\n' ∉ stamp.toList) :
+    (∀ g ∈ s.gens, s.lists g.fileName = true → g.state ≠ .missing → g.fileName ≠ w.gen.fileName) ∧
+    (checkChain s = .ok () → s.lists w.gen.fileName = false) := by
+  have hasc : (h.gens.map (·.number)).Pairwise (· ≤ ·) := by rw [hload]; exact loadGens_sorted s
+  obtain ⟨hparse, -⟩ := new_name_fresh rootHist sess folderName stamp process h refs w hw hasc hfolder hstamp
+  apply fresh_of_parse_above s _ _ hparse
+  intro g hg
+  have := (latest_is_max_of_sorted h.gens hasc).1 g (hload ▸ hg)
+  omega
+
+/-! ### 7. append-only -/
+
+/-- the shape the tool leaves: manifest names pairwise different, every stored manifest listed in the chain -/
+def Listed (s : HistStore) : Prop :=
+  (s.gens.map (·.fileName)).Nodup ∧ ∀ g ∈ s.gens, s.lists g.fileName = true
+
+instance (s : HistStore) : Decidable (Listed s) :=
+  inferInstanceAs (Decidable ((s.gens.map (·.fileName)).Nodup ∧ ∀ g ∈ s.gens, s.lists g.fileName = true))
+
+theorem listed_empty : Listed {} := ⟨List.nodup_nil, fun _ h => by cases h⟩
+
+theorem dropUnlisted_of_listed (s : HistStore) (h : Listed s) : dropUnlisted s = s := by
+  unfold dropUnlisted
+  rw [List.filter_eq_self.2 (fun g hg => h.2 g hg)]
+
+/-- the manifests of `s.add w`: those of `s` under another name, then the new one; the chain: one more entry -/
+theorem add_gens (s : HistStore) (w : Written) :
+    (s.add w).gens = s.gens.filter (fun g => g.fileName != w.gen.fileName) ++ [w.gen] ∧
+    (s.add w).chain = s.chain ++ [⟨w.number, w.gen.fileName⟩] ∧ (s.add w).chainPresent = true :=
+  ⟨rfl, rfl, rfl⟩
+
+theorem add_lists (s : HistStore) (w : Written) (nm : String) :
+    (s.add w).lists nm = (s.lists nm || w.gen.fileName == nm) := by
+  simp [HistStore.lists, HistStore.add]
+
+theorem mem_add_gens (s : HistStore) (w : Written) (g : Generation) :
+    g ∈ (s.add w).gens ↔ (g ∈ s.gens ∧ g.fileName ≠ w.gen.fileName) ∨ g = w.gen := by
+  simp [HistStore.add]
+
+/-- when no stored manifest carries the new name (`os.replace` overwrites nothing) the new manifest is appended -/
+theorem add_gens_of_fresh (s : HistStore) (w : Written) (hfresh : ∀ g ∈ s.gens, g.fileName ≠ w.gen.fileName) :
+    (s.add w).gens = s.gens ++ [w.gen] := by
+  show s.gens.filter (fun g => g.fileName != w.gen.fileName) ++ [w.gen] = _
+  rw [List.filter_eq_self.2 (fun g hg => by simpa using hfresh g hg)]
+
+/-- in a store where every manifest is listed, a name the chain does not list is the name of no stored manifest -/
+theorem fresh_of_unlisted (s : HistStore) (hl : ∀ g ∈ s.gens, s.lists g.fileName = true) (nm : String)
+    (h : s.lists nm = false) : ∀ g ∈ s.gens, g.fileName ≠ nm := by
+  intro g hg hn
+  have := hl g hg
+  rw [hn, h] at this; cases this
+
+/-- `add_appends`: the chain always gets exactly one more entry at the end; the new manifest is appended to the
+stored ones when its name is fresh (otherwise it REPLACES the stored manifest of that name, `add_gens`) -/
+theorem add_appends (s : HistStore) (w : Written) (hfresh : ∀ g ∈ s.gens, g.fileName ≠ w.gen.fileName) :
     (s.add w).gens = s.gens ++ [w.gen] ∧ (s.add w).chain = s.chain ++ [⟨w.number, w.gen.fileName⟩] :=
-  ⟨rfl, rfl⟩
+  ⟨add_gens_of_fresh s w hfresh, rfl⟩
 
-/-- every old manifest and every old chain entry is still there, at the same position -/
-theorem add_preserves (s : HistStore) (w : Written) :
+/-- every old chain entry is still there, at the same position, whatever the new name is -/
+theorem add_chain_preserves (s : HistStore) (w : Written) :
+    (∀ i (hi : i < s.chain.length), (s.add w).chain[i]? = some s.chain[i]) ∧
+    (s.add w).chain.length = s.chain.length + 1 := by
+  refine ⟨?_, by simp [HistStore.add]⟩
+  intro i hi; simp [HistStore.add, List.getElem?_append_left hi]
+
+/-- every old manifest under another name than the new one is still there, in the old order -/
+theorem add_keeps_others (s : HistStore) (w : Written) :
+    (s.gens.filter fun g => g.fileName != w.gen.fileName) <+: (s.add w).gens :=
+  List.prefix_append _ _
+
+/-- every old manifest and every old chain entry is still there, at the same position (the name of the new
+manifest being fresh) -/
+theorem add_preserves (s : HistStore) (w : Written) (hfresh : ∀ g ∈ s.gens, g.fileName ≠ w.gen.fileName) :
     (∀ i (hi : i < s.gens.length), (s.add w).gens[i]? = some s.gens[i]) ∧
     (∀ i (hi : i < s.chain.length), (s.add w).chain[i]? = some s.chain[i]) ∧
     (s.add w).gens.length = s.gens.length + 1 ∧ (s.add w).chain.length = s.chain.length + 1 := by
-  refine ⟨?_, ?_, by simp [HistStore.add], by simp [HistStore.add]⟩
-  · intro i hi; simp [HistStore.add, List.getElem?_append_left hi]
-  · intro i hi; simp [HistStore.add, List.getElem?_append_left hi]
+  have hg := add_gens_of_fresh s w hfresh
+  refine ⟨?_, (add_chain_preserves s w).1, by rw [hg]; simp, (add_chain_preserves s w).2⟩
+  intro i hi; rw [hg]; simp [List.getElem?_append_left hi]
+
+/-- `add` keeps the shape: all manifests listed, names pairwise different — whatever the new name is (a stored
+manifest of the same name is overwritten) -/
+theorem listed_add (s : HistStore) (w : Written) (h : Listed s) : Listed (s.add w) := by
+  obtain ⟨hnd, hl⟩ := h
+  constructor
+  · show ((s.gens.filter (fun g => g.fileName != w.gen.fileName) ++ [w.gen]).map (·.fileName)).Nodup
+    rw [List.map_append, List.nodup_append]
+    refine ⟨(hnd.sublist ((List.filter_sublist).map _)), by simp, ?_⟩
+    intro a ha b hb
+    simp only [List.map_cons, List.map_nil, List.mem_singleton] at hb
+    subst hb
+    obtain ⟨g, hg, rfl⟩ := List.mem_map.1 ha
+    have := (List.mem_filter.1 hg).2
+    simpa using this
+  · intro g hg
+    rw [add_lists]
+    rcases (mem_add_gens s w g).1 hg with ⟨hg, _⟩ | rfl
+    · rw [hl g hg]; rfl
+    · simp
+
+/-- all manifests listed is kept on its own, too -/
+theorem allListed_add (s : HistStore) (w : Written) (hl : ∀ g ∈ s.gens, s.lists g.fileName = true) :
+    ∀ g ∈ (s.add w).gens, (s.add w).lists g.fileName = true := by
+  intro g hg
+  rw [add_lists]
+  rcases (mem_add_gens s w g).1 hg with ⟨hg, _⟩ | rfl
+  · rw [hl g hg]; rfl
+  · simp
 
 theorem addGeneration_name (w : Written) (x : Node) : (Node.addGeneration w x).name = x.name := by
   cases x <;> rfl
@@ -337,35 +640,91 @@ theorem applyWritten_single_at (t : Node) (w : Written) (nm : String) (cs : List
   rw [updateAt_at?_self _ (addGeneration_name w), h]
   rfl
 
-/-! ### 7. reloading after a write gives 1..n+1 -/
+/-! ### 8. reloading after a write gives 1..n+1 -/
 
+/-- the general form: the new name parses to `k`, no loaded number is above `k`, and the new name is the name of no
+LOADED manifest (it may be the name of a stale manifest file the chain does not list — that one is overwritten and
+was never loaded) -/
 theorem loadGens_add (s : HistStore) (w : Written) (k : Nat)
     (hparse : parseGenName w.gen.fileName = some k) (hstate : w.gen.state = .ok)
-    (hmax : ∀ g ∈ loadGens s, g.number ≤ k) :
+    (hmax : ∀ g ∈ loadGens s, g.number ≤ k)
+    (hfresh : ∀ g ∈ loadGens s, g.gen.fileName ≠ w.gen.fileName) :
     loadGens (s.add w) = loadGens s ++ [⟨k, w.gen⟩] := by
+  have hmem := mem_loadGens_iff s
   unfold loadGens at hmax ⊢
-  have hadd : (s.add w).gens = s.gens ++ [w.gen] := rfl
+  have hadd : (s.add w).gens = s.gens.filter (fun g => g.fileName != w.gen.fileName) ++ [w.gen] := rfl
   simp only [hadd, List.filterMap_append]
   have hlast : List.filterMap (fun g : Generation =>
-      if g.state == .missing then none else (parseGenName g.fileName).map fun n => (⟨n, g⟩ : LGen)) [w.gen]
+      if g.state == .missing || !(s.add w).lists g.fileName then none
+      else (parseGenName g.fileName).map fun n => (⟨n, g⟩ : LGen)) [w.gen]
       = [⟨k, w.gen⟩] := by
-    simp [hparse, hstate]
-  rw [hlast]
+    simp [hparse, hstate, add_lists]
+  have hold : List.filterMap (fun g : Generation =>
+      if g.state == .missing || !(s.add w).lists g.fileName then none
+      else (parseGenName g.fileName).map fun n => (⟨n, g⟩ : LGen))
+        (s.gens.filter (fun g => g.fileName != w.gen.fileName))
+      = List.filterMap (fun g : Generation =>
+      if g.state == .missing || !s.lists g.fileName then none
+      else (parseGenName g.fileName).map fun n => (⟨n, g⟩ : LGen)) s.gens := by
+    rw [← filterMap_filter_of_none _ (fun g => g.fileName != w.gen.fileName) s.gens]
+    · apply filterMap_congr_mem
+      intro g hg
+      have hne : (w.gen.fileName == g.fileName) = false := by
+        have := (List.mem_filter.1 hg).2
+        simp only [bne_iff_ne, ne_eq] at this
+        exact beq_false_of_ne (fun h => this h.symm)
+      rw [add_lists, hne, Bool.or_false]
+    · intro g hg hn
+      have hn' : g.fileName = w.gen.fileName := by simpa using hn
+      by_cases hc : (g.state == .missing || !s.lists g.fileName) = true
+      · rw [if_pos hc]
+      · exfalso
+        simp only [Bool.or_eq_true, beq_iff_eq, Bool.not_eq_true', not_or, Bool.not_eq_false] at hc
+        exact hfresh ⟨k, g⟩ ((hmem ⟨k, g⟩).2 ⟨hg, hc.1, hc.2, by rw [hn']; exact hparse⟩) hn'
+  rw [hlast, hold]
   apply isort_append_last
   intro a ha
   have := hmax a ((mem_isort_n _ a _).2 ha)
   simpa using this
 
+/-- a loaded manifest is numbered by its own name -/
+theorem loadGens_parse (s : HistStore) : ∀ g ∈ loadGens s, parseGenName g.gen.fileName = some g.number :=
+  fun g hg => ((mem_loadGens_iff s g).1 hg).2.2.2
+
+/-- the form used for a run: the new name parses to a number ABOVE every loaded number (so it is the name of no
+loaded manifest) -/
+theorem loadGens_add_lt (s : HistStore) (w : Written) (k : Nat)
+    (hparse : parseGenName w.gen.fileName = some k) (hstate : w.gen.state = .ok)
+    (hlt : ∀ g ∈ loadGens s, g.number < k) :
+    loadGens (s.add w) = loadGens s ++ [⟨k, w.gen⟩] := by
+  apply loadGens_add s w k hparse hstate (fun g hg => Nat.le_of_lt (hlt g hg))
+  intro g hg hn
+  have h1 := loadGens_parse s g hg
+  rw [hn, hparse] at h1
+  have := hlt g hg
+  have := Option.some.inj h1
+  omega
+
+/-- … or a name the chain does not list -/
+theorem loadGens_add_unlisted (s : HistStore) (w : Written) (k : Nat)
+    (hparse : parseGenName w.gen.fileName = some k) (hstate : w.gen.state = .ok)
+    (hmax : ∀ g ∈ loadGens s, g.number ≤ k) (hun : s.lists w.gen.fileName = false) :
+    loadGens (s.add w) = loadGens s ++ [⟨k, w.gen⟩] := by
+  apply loadGens_add s w k hparse hstate hmax
+  intro g hg hn
+  have := (loadGens_listed_only s).1 g hg
+  rw [hn, hun] at this; cases this
+
 theorem reload_contiguous (s : HistStore) (w : Written) (n : Nat)
     (hgens : (loadGens s).map (·.number) = List.range' 1 n)
     (hparse : parseGenName w.gen.fileName = some (n + 1)) (hstate : w.gen.state = .ok) :
     (loadGens (s.add w)).map (·.number) = List.range' 1 (n + 1) := by
-  have hmax : ∀ g ∈ loadGens s, g.number ≤ n + 1 := by
+  have hmax : ∀ g ∈ loadGens s, g.number < n + 1 := by
     intro g hg
     have : g.number ∈ List.range' 1 n := hgens ▸ List.mem_map.2 ⟨g, hg, rfl⟩
     rw [List.mem_range'_1] at this
     omega
-  rw [loadGens_add s w (n + 1) hparse hstate hmax, List.map_append, hgens, List.range'_1_concat]
+  rw [loadGens_add_lt s w (n + 1) hparse hstate hmax, List.map_append, hgens, List.range'_1_concat]
   simp [Nat.add_comm]
 
 /-- end to end: a history loaded from a folder with generations 1..n, after `write_new_generation` and a reload, has
@@ -387,14 +746,176 @@ theorem writeOne_reload_contiguous (rootHist : Hist) (sess : Session) (folderNam
   obtain ⟨hparse, _⟩ := new_name_fresh rootHist sess folderName stamp process h refs w hw hasc hfolder hstamp
   obtain ⟨hstate, hnum, _⟩ := writeOne_state rootHist sess folderName stamp process none h refs w hw
   rw [hlatest] at hparse hnum
-  have hmax : ∀ g ∈ loadGens s, g.number ≤ n + 1 := by
+  have hmax : ∀ g ∈ loadGens s, g.number < n + 1 := by
     intro g hg
     have : g.number ∈ List.range' 1 n := hgens ▸ List.mem_map.2 ⟨g, hg, rfl⟩
     rw [List.mem_range'_1] at this
     omega
-  refine ⟨hnum, loadGens_add s w (n + 1) hparse hstate hmax,
+  refine ⟨hnum, loadGens_add_lt s w (n + 1) hparse hstate hmax,
     reload_contiguous s w n hgens hparse hstate, ?_⟩
-  rw [(add_appends s w).2, hnum]
+  rw [(add_gens s w).2.1, hnum]
+
+/-! ### 9. a `create` that was killed between its two replaces
+
+`write_hash_list` moves the new manifest into place, then `write_chain` moves the new chain file into place
+(MhlModel/Crash.lean `HistCommit.ops`; MhlProps/C15.lean `Phase.manifestDone` is the state in between).  A kill between
+the two leaves the complete new manifest in the folder and the OLD chain file, which does not list it.  After the
+repair that manifest is not part of the history: the folder loads exactly as before the interrupted run, and the
+re-run writes generation `latest+1` again. -/
+
+/-- the manifest `g` moved into place, the chain not yet rewritten -/
+def withLeftover (s : HistStore) (g : Generation) : HistStore := { s with gens := s.gens ++ [g] }
+
+theorem withLeftover_lists (s : HistStore) (g : Generation) (nm : String) :
+    (withLeftover s g).lists nm = s.lists nm := rfl
+
+theorem loadGens_withLeftover (s : HistStore) (g : Generation) (hun : s.lists g.fileName = false) :
+    loadGens (withLeftover s g) = loadGens s := by
+  show isort _ (List.filterMap (fun g : Generation =>
+      if g.state == .missing || !s.lists g.fileName then none
+      else (parseGenName g.fileName).map fun n => (⟨n, g⟩ : LGen)) (s.gens ++ [g])) = _
+  rw [List.filterMap_append]
+  have : List.filterMap (fun g : Generation =>
+      if g.state == .missing || !s.lists g.fileName then none
+      else (parseGenName g.fileName).map fun n => (⟨n, g⟩ : LGen)) [g] = [] := by simp [hun]
+  rw [this, List.append_nil]
+  rfl
+
+theorem checkStore_withLeftover (s : HistStore) (g : Generation) (hun : s.lists g.fileName = false) :
+    checkStore (some (withLeftover s g)) = checkStore (some s) := by
+  show (if !s.chainPresent then throw errNoChain else checkChain (withLeftover s g)) =
+    (if !s.chainPresent then throw errNoChain else checkChain s)
+  rw [checkChain_congr s (withLeftover s g) rfl]
+  intro e he
+  show (s.gens ++ [g]).find? _ = _
+  have hne : (g.fileName == e.fileName) = false :=
+    beq_false_of_ne (fun h => (lists_eq_false_iff s _).1 hun e he h.symm)
+  rw [List.find?_append]
+  simp [hne]
+
+/-- a folder whose store passes the same check, loads the same generations and has the same chain loads as the same
+history (the walk for nested histories does not look at the folder's own `ascmhl` folder) -/
+theorem loadHistory_congr_store (nm : String) (cs : List Node) (s s' : HistStore)
+    (hc : checkStore (some s') = checkStore (some s)) (hg : loadGens s' = loadGens s) (hch : s'.chain = s.chain) :
+    loadHistory (.dir nm cs (some s')) = loadHistory (.dir nm cs (some s)) := by
+  unfold loadHistory
+  simp only [Node.hist, hc, buildHist, hg, hch]
+  rfl
+
+/-- the leftover of an interrupted `create` together with a manifest `w'` that a later run writes: after removing
+what the chain does not list, the folder is exactly what the later run would have produced without the
+interruption -/
+theorem dropUnlisted_add_withLeftover (s : HistStore) (hl : ∀ g ∈ s.gens, s.lists g.fileName = true)
+    (g : Generation) (hun : s.lists g.fileName = false) (w' : Written) :
+    dropUnlisted ((withLeftover s g).add w') = dropUnlisted (s.add w') ∧ dropUnlisted (s.add w') = s.add w' := by
+  have h2 : dropUnlisted (s.add w') = s.add w' := by
+    unfold dropUnlisted
+    rw [List.filter_eq_self.2 (allListed_add s w' hl)]
+  refine ⟨?_, h2⟩
+  rw [h2]
+  unfold dropUnlisted
+  have hlists : ∀ nm, ((withLeftover s g).add w').lists nm = (s.add w').lists nm := fun _ => rfl
+  have hgens : ((withLeftover s g).add w').gens =
+      s.gens.filter (fun x => x.fileName != w'.gen.fileName) ++
+        ([g].filter (fun x => x.fileName != w'.gen.fileName) ++ [w'.gen]) := by
+    show (s.gens ++ [g]).filter _ ++ [w'.gen] = _
+    rw [List.filter_append, List.append_assoc]
+  have hdrop : ([g].filter (fun x => x.fileName != w'.gen.fileName)).filter
+      (fun x => (s.add w').lists x.fileName) = [] := by
+    by_cases hn : g.fileName = w'.gen.fileName
+    · simp [hn]
+    · have hn' : (w'.gen.fileName == g.fileName) = false := beq_false_of_ne (fun h => hn h.symm)
+      simp [hn, add_lists, hun, hn']
+  have hkeep : (s.gens.filter (fun x => x.fileName != w'.gen.fileName) ++ [w'.gen]).filter
+      (fun x => (s.add w').lists x.fileName) =
+      s.gens.filter (fun x => x.fileName != w'.gen.fileName) ++ [w'.gen] :=
+    List.filter_eq_self.2 (allListed_add s w' hl)
+  simp only [hgens, hlists, List.filter_append, hdrop, List.nil_append] at hkeep ⊢
+  show ({ gens := _, chain := _, chainPresent := _ } : HistStore) = s.add w'
+  rw [hkeep]
+  rfl
+
+/-- INTERRUPTED GENERATION ABSENT.  `s`: a store in the shape the tool leaves (names pairwise different, every
+manifest listed).  `w`: a generation whose name the chain of `s` does not list (what `write_new_generation` produces:
+`new_name_fresh_listed`).  `withLeftover s w.gen` is `s` with the manifest of `w` moved into place and the chain not
+yet rewritten — the state a kill between the two replaces leaves.  Then
+  * that state loads EXACTLY like `s`: same generations, same outcome of the chain check, same chain, hence the same
+    loaded history of the folder;
+  * the re-run — `HistStore.add` of ANY generation `w'` that is numbered and named one above the `n` loaded
+    generations — loads as generations 1..n+1, the old ones followed by `w'`, exactly as if it had been added to `s`
+    itself; apart from what the chain does not list the folder IS `s.add w'`, which is again in the shape the tool
+    leaves; and when `w'` carries the name of the leftover (same second) the leftover is overwritten and the folder is
+    literally `s.add w'`. -/
+theorem interrupted_generation_absent (s : HistStore) (hl : Listed s) (w : Written)
+    (hun : s.lists w.gen.fileName = false) :
+    -- the leftover is invisible
+    loadGens (withLeftover s w.gen) = loadGens s ∧
+    checkStore (some (withLeftover s w.gen)) = checkStore (some s) ∧
+    (withLeftover s w.gen).chain = s.chain ∧
+    (∀ nm cs, loadHistory (.dir nm cs (some (withLeftover s w.gen))) = loadHistory (.dir nm cs (some s))) ∧
+    -- the re-run
+    ∀ (n : Nat) (w' : Written), (loadGens s).map (·.number) = List.range' 1 n →
+      parseGenName w'.gen.fileName = some (n + 1) → w'.gen.state = .ok →
+      loadGens ((withLeftover s w.gen).add w') = loadGens s ++ [⟨n + 1, w'.gen⟩] ∧
+      loadGens ((withLeftover s w.gen).add w') = loadGens (s.add w') ∧
+      (loadGens ((withLeftover s w.gen).add w')).map (·.number) = List.range' 1 (n + 1) ∧
+      ((withLeftover s w.gen).add w').chain = s.chain ++ [⟨w'.number, w'.gen.fileName⟩] ∧
+      checkStore (some ((withLeftover s w.gen).add w')) = checkStore (some (s.add w')) ∧
+      dropUnlisted ((withLeftover s w.gen).add w') = s.add w' ∧
+      Listed (s.add w') ∧
+      (w'.gen.fileName = w.gen.fileName → (withLeftover s w.gen).add w' = s.add w' ∧
+        Listed ((withLeftover s w.gen).add w')) := by
+  have h1 := loadGens_withLeftover s w.gen hun
+  have h2 := checkStore_withLeftover s w.gen hun
+  refine ⟨h1, h2, rfl, fun nm cs => loadHistory_congr_store nm cs s _ h2 h1 rfl, ?_⟩
+  intro n w' hgens hparse hstate
+  have hlt : ∀ g ∈ loadGens s, g.number < n + 1 := by
+    intro g hg
+    have : g.number ∈ List.range' 1 n := hgens ▸ List.mem_map.2 ⟨g, hg, rfl⟩
+    rw [List.mem_range'_1] at this
+    omega
+  have ha : loadGens ((withLeftover s w.gen).add w') = loadGens s ++ [⟨n + 1, w'.gen⟩] := by
+    rw [loadGens_add_lt _ w' (n + 1) hparse hstate (by rw [h1]; exact hlt), h1]
+  have hb : loadGens (s.add w') = loadGens s ++ [⟨n + 1, w'.gen⟩] := loadGens_add_lt s w' (n + 1) hparse hstate hlt
+  obtain ⟨hd1, hd2⟩ := dropUnlisted_add_withLeftover s hl.2 w.gen hun w'
+  refine ⟨ha, by rw [ha, hb], ?_, rfl, ?_, hd1.trans hd2, listed_add s w' hl, ?_⟩
+  · rw [ha, List.map_append, hgens, List.range'_1_concat]
+    simp [Nat.add_comm]
+  · rw [← checkStore_dropUnlisted, hd1, hd2]
+  · intro hn
+    have heq : (withLeftover s w.gen).add w' = s.add w' := by
+      show ({ gens := (s.gens ++ [w.gen]).filter _ ++ [w'.gen], chain := _, chainPresent := true } : HistStore) = _
+      rw [List.filter_append]
+      have : [w.gen].filter (fun g => g.fileName != w'.gen.fileName) = [] := by simp [hn]
+      rw [this, List.append_nil]
+      rfl
+    exact ⟨heq, heq ▸ listed_add s w' hl⟩
+
+/-- composed with `write_new_generation`: a history loaded from `s` (chain check passed), the generation `w` the
+tool writes for it.  If the run is killed after the manifest was moved into place, the folder loads exactly like `s`
+— and so the re-run computes the same number `latest+1` again. -/
+theorem interrupted_create_absent (rootHist : Hist) (sess : Session) (folderName stamp process : String) (h : Hist)
+    (refs : List Written) (w : Written) (s : HistStore) (hload : h.gens = loadGens s)
+    (hchk : checkStore (some s) = .ok ())
+    (hw : writeOne rootHist sess folderName stamp process none h refs = .ok w)
+    (hfolder : '\n' ∉ ((h.root.getLast?).getD folderName).toList) (hstamp : '\n' ∉ stamp.toList) :
+    s.lists w.gen.fileName = false ∧
+    loadGens (withLeftover s w.gen) = loadGens s ∧
+    checkStore (some (withLeftover s w.gen)) = .ok () ∧
+    latestGenerationNumber (loadGens (withLeftover s w.gen)) + 1 = w.number ∧
+    ∀ nm cs, loadHistory (.dir nm cs (some (withLeftover s w.gen))) = loadHistory (.dir nm cs (some s)) := by
+  have hcc : checkChain s = .ok () := by
+    unfold checkStore at hchk
+    simp only at hchk
+    split at hchk
+    · cases hchk
+    · exact hchk
+  have hun := (new_name_fresh_listed rootHist sess folderName stamp process h refs w s hload hw hfolder hstamp).2 hcc
+  have h1 := loadGens_withLeftover s w.gen hun
+  have h2 := checkStore_withLeftover s w.gen hun
+  refine ⟨hun, h1, h2.trans hchk, ?_, fun nm cs => loadHistory_congr_store nm cs s _ h2 h1 rfl⟩
+  rw [h1, ← hload]
+  exact (writeOne_number rootHist sess folderName stamp process h refs w hw).1.symm
 
 /-! ### non-vacuity -/
 
@@ -430,5 +951,42 @@ example (w : Written) (hw : w.histRoot = ["A"]) :
   · rw [applyWritten_root_untouched exTree [w] (by simp [hw])]; rfl
   · have := applyWritten_single_at exTree w "A" [.file "a.mov" []] (some {}) (by rw [hw]; rfl)
     rw [hw] at this; rw [this]; rfl
+
+/-- `exStore` after a third `create` was killed between its two replaces: manifest 3 is in the folder, the chain
+lists 1 and 2 -/
+def exLeftover : HistStore :=
+  withLeftover exStore { fileName := "0003_A_2020-01-18_101010Z.mhl" }
+
+/-- the leftover is not loaded; the folder loads as generations 1, 2 and the next number is 3 again -/
+example : (loadGens exLeftover).map (·.number) = [1, 2] ∧
+    latestGenerationNumber (loadGens exLeftover) + 1 = 3 ∧
+    ¬ Listed exLeftover ∧ Listed exStore ∧ dropUnlisted exLeftover = exStore := by decide +kernel
+
+example : loadGens exLeftover = loadGens exStore := loadGens_withLeftover _ _ (by decide +kernel)
+
+example : checkStore (some exLeftover) = .ok () := by
+  rw [exLeftover, checkStore_withLeftover _ _ (by decide +kernel)]; rfl
+
+/-- the re-run in the same second writes the SAME name: the leftover is overwritten; in another second the leftover
+stays behind, unlisted and not loaded -/
+example : ∃ w, writeOne exHist {} "A" "2020-01-18_101010Z" "in-place" none exHist [] = .ok w ∧
+    w.gen.fileName = "0003_A_2020-01-18_101010Z.mhl" ∧ exLeftover.add w = exStore.add w ∧
+    (loadGens (exLeftover.add w)).map (·.number) = [1, 2, 3] ∧ Listed (exLeftover.add w) :=
+  ⟨_, rfl, by decide +kernel, by decide +kernel, by decide +kernel, by decide +kernel⟩
+
+example : ∃ w, writeOne exHist {} "A" "2020-01-18_101011Z" "in-place" none exHist [] = .ok w ∧
+    w.gen.fileName = "0003_A_2020-01-18_101011Z.mhl" ∧
+    (loadGens (exLeftover.add w)).map (·.number) = [1, 2, 3] ∧
+    (loadGens (exLeftover.add w)).map (·.gen.fileName) =
+      ["0001_A_2020-01-16_091500Z.mhl", "0002_A_2020-01-17_143000Z.mhl", "0003_A_2020-01-18_101011Z.mhl"] ∧
+    ¬ Listed (exLeftover.add w) ∧ dropUnlisted (exLeftover.add w) = exStore.add w :=
+  ⟨_, rfl, by decide +kernel, by decide +kernel, by decide +kernel, by decide +kernel, by decide +kernel⟩
+
+/-- the hypotheses of `interrupted_generation_absent` hold on this store -/
+example : Listed exStore ∧ exStore.lists "0003_A_2020-01-18_101010Z.mhl" = false := by decide +kernel
+
+/-- without the freshness hypothesis `add_appends` is false: the stored manifest of the same name is replaced -/
+example : (exLeftover.add ⟨[], 3, { fileName := "0003_A_2020-01-18_101010Z.mhl", process := "flatten" }⟩).gens.length
+    = 3 := by decide +kernel
 
 end MhlProps.C06
